@@ -304,7 +304,7 @@ PROPS = {
         'not_reached': ['record parsing inside bio (ids, CRLF, wrapping, FASTQ)', 'suffix inference beyond the bounded Kani stand-in', 'summary statistics loop (bio records() again)'],
     },
     'C05': {
-        'units': ['mmap_rows', 'batch_loops', 'reader_glue', 'sched_rows'], 'deps': ['oligo_vec', 'kmer_gen', 'posmaps'], 'replay': 'c05',
+        'units': ['mmap_rows', 'batch_loops', 'reader_glue', 'sched_rows'], 'deps': ['oligo_vec', 'kmer_gen', 'posmaps'], 'replay': 'c05,c04',
         'level_text': 'Narrow claim: the sequential obligations that make row i belong to record i are proved; schedule independence then rests on assumed contracts of Mutex, rayon::scope and par_iter/collect. '
                       '(1) Sequences::next hands out ordinal n == number of records delivered before (it takes &mut self, so calls are totally ordered); (2) mmap path: the write offset and length of a row are '
                       'exactly slot record.n of the exact tiling header + records x row length - a function of the record alone, so the file does not depend on write order; (3) batch path: the lifted loop renders every record exactly once in reader order including the final flush; (4) unit sched_rows proves, over sequences of writes, that pairwise disjoint writes give the same file in every order '
@@ -359,7 +359,7 @@ PROPS = {
         'not_reached': ['worker interleavings (assumed primitives)', 'text rendering and the final table dump', 'closure glue between the lifted fragments (record hand-out, progress bar)'],
     },
     'C15': {
-        'units': ['cli_wiring', 'ctor'], 'deps': ['mmap_rows', 'batch_loops', 'reader_glue'], 'replay': 'c15',
+        'units': ['cli_wiring', 'ctor'], 'deps': ['mmap_rows', 'batch_loops', 'reader_glue', 'count_route', 'min_lines'], 'replay': 'c15',
         'level_text': 'Narrow claim. Verus proves for the lifted option-to-setter statements of the oligo, coverage, counter and minimiser arms of cli(), against stub computers whose setters record a ghost configuration: '
                       'csv/tsv/spc change only the delimiter (",", tab, space), the header flag only sets header, counts only flips normalisation, --acgt only sets the rendering flag, the thread option is applied iff > 0 and touches nothing else, '
                       'k / bins / memory / alt-input are passed through unchanged; and every value accepted by the clap value_parser ranges (read from the attribute text on every run) satisfies the preconditions of the library '
